@@ -397,9 +397,28 @@ func c05WaitGoroutines(base int, d time.Duration) int {
 	}
 }
 
+var c05CloserMissing bool
+
 type c05Discard struct{}
 
 func (c05Discard) Write(p []byte) (int, error) { return len(p), nil }
+
+type c05Buf struct {
+	mu sync.Mutex
+	b  []byte
+}
+
+func (w *c05Buf) Write(p []byte) (int, error) {
+	w.mu.Lock()
+	defer w.mu.Unlock()
+	w.b = append(w.b, p...)
+	return len(p), nil
+}
+func (w *c05Buf) String() string {
+	w.mu.Lock()
+	defer w.mu.Unlock()
+	return string(w.b)
+}
 
 // ---------------------------------------------------------------- half / pair / free
 
@@ -498,8 +517,17 @@ func c05RunScripted(c c05Case) (res c05Res) {
 			if !closerSpawned(main) || closerGone[t] {
 				return true
 			}
-			if _, ok := ctl.waitQuiescent(t, step); !ok {
-				return false
+			wait := 500 * time.Millisecond
+			if c05CloserMissing {
+				wait = 5 * time.Millisecond
+			}
+			if _, ok := ctl.waitQuiescent(t, wait); !ok {
+				// the direction is at (or past) its teardown but no source closer shows up: it
+				// was never started.  Not a hang; the connection simply stays unclosed.
+				c05CloserMissing = true
+				closerGone[t] = true
+				ctl.finish(t)
+				return true
 			}
 			ctl.grant(t)
 			ctl.finish(t)
@@ -742,7 +770,8 @@ func c05RunProxy(c c05Case) (res c05Res) {
 		RegistrationSource: pb.RegistrationSource_API.Enum(),
 	}
 	client := &c05FreeConn{scr: c.Up, closedCh: make(chan struct{}), mid: -1}
-	logger := log.New(c05Discard{}, "", 0)
+	lbuf := &c05Buf{}
+	logger := log.New(lbuf, "", 0)
 	res.Gauge0 = atomic.LoadInt64(&ps.sessionsProxying)
 	ret := make(chan string, 1)
 	go func() {
@@ -763,6 +792,17 @@ func c05RunProxy(c c05Case) (res c05Res) {
 		res.Hang = true
 	}
 	res.Gauge1 = atomic.LoadInt64(&ps.sessionsProxying)
+	// the tunnel summary tells whether the dial itself failed (then nothing is relayed)
+	if txt := lbuf.String(); strings.Contains(txt, "proxy closed ") {
+		var ts struct{ CovertDialErr string }
+		js := txt[strings.Index(txt, "proxy closed ")+len("proxy closed "):]
+		if i := strings.IndexByte(js, '\n'); i >= 0 {
+			js = js[:i]
+		}
+		if json.Unmarshal([]byte(js), &ts) == nil {
+			res.DialErr = ts.CovertDialErr
+		}
+	}
 	if ln != nil {
 		ln.Close()
 	}
@@ -798,12 +838,21 @@ func TestVerifC05(t *testing.T) {
 	getProxyStats()
 	time.Sleep(20 * time.Millisecond)
 	res := make([]c05Res, len(cases))
+	hangs := 0
 	for i, c := range cases {
+		if hangs >= 4 {
+			// the code under test hangs systematically: do not spend the timeout on every case
+			res[i] = c05Res{Hang: true, Panic: ""}
+			continue
+		}
 		switch c.Mode {
 		case "proxy":
 			res[i] = c05RunProxy(c)
 		default:
 			res[i] = c05RunScripted(c)
+		}
+		if res[i].Hang {
+			hangs++
 		}
 	}
 	out, _ := json.Marshal(res)
